@@ -340,7 +340,7 @@ func TestCheck(t *testing.T) {
 			do(c)
 		}
 	}
-	cfg.SetRapid(cfg.N(400, 6000), 1)
+	cfg.SetRapid(cfg.N(1500, 8000), 1)
 	rapid.Check(t, func(rt *rapid.T) {
 		if !do(gen(rt, false)) {
 			rt.Fatalf("C05 failed")
